@@ -10,6 +10,13 @@ Line-protocol front end of the C14 model (requests after the leading `C14` field
   run    <fuel> <limit> <root> <exts> <keys> <files> <main>
          → out TAB ticks TAB opens TAB failed TAB reent TAB spawns TAB misbinds TAB nofuel TAB dump
            TAB runsOnce TAB oneObjectPerName TAB globalsDisjoint TAB reruns(name:cause,...)
+           TAB codeInj TAB codecache(name:codeid,... in compilation order)
+         (dump: module values are m<object>:<name>:c<code identity>)
+  runshared  same arguments and reply, but for an importer that shares one code object between
+         modules with equal text (`shareByText`; NOT the unchanged code — diagnosis only)
+  codes  <root> <exts> <files> <names>   the importer alone: `importSeq` over the csv of names
+         → csv of the code identity the importer's cache holds for each name afterwards ("-" = none)
+           TAB codeInj TAB opens
 -/
 namespace Risor.C14
 open Risor.Util
@@ -34,6 +41,9 @@ def parseStmt (s : String) : Option Stmt :=
   | ["f", p, items] => do pure (.fromImp (← fromHex p) (← (items.splitOn ",").mapM parseItem))
   | ["s", v, i] => do pure (.set (← fromHex v) (← i.toInt?))
   | ["v", a, v, i] => do pure (.setVia (← fromHex a) (← fromHex v) (← i.toInt?))
+  | ["a", a, v, i] => do pure (.addVia (← fromHex a) (← fromHex v) (← i.toInt?))
+  | ["l", v] => do pure (.newList (← fromHex v))
+  | ["u", a, v, i] => do pure (.pushVia (← fromHex a) (← fromHex v) (← i.toInt?))
   | ["t", n] => do pure (.tryImp (← fromHex n))
   | ["p", n] => do pure (.spawnImp (← fromHex n))
   | ["x"] => some .fail
@@ -53,7 +63,11 @@ def parseFiles (s : String) : Option (List (Path × List Stmt)) :=
 def showVal (st : St) : Val → String
   | .int i => "i" ++ toString i
   | .nil => "n"
-  | .mod o => "m" ++ toString o ++ ":" ++ (match st.objs[o]? with | some (n, _) => hexOrTilde n | none => "?")
+  | .list l => "l" ++ ";".intercalate (l.map toString)
+  | .mod o => "m" ++ toString o ++ ":" ++
+      (match st.objs[o]? with
+       | some (n, g) => hexOrTilde n ++ ":c" ++ (match st.codeOfGid g with | some c => toString c | none => "?")
+       | none => "?")
 
 /-- tree walk of the globals reachable from the script's frame through module values -/
 def dump (st : St) (keys : List Path) : Nat → String → Nat → List String
@@ -73,6 +87,24 @@ def dump (st : St) (keys : List Path) : Nat → String → Nat → List String
 
 def showOut : Out → String
   | .ok => "ok" | .err => "err" | .panic => "panic"
+
+def doRun (shared : Bool) (fuel limit root exts keys files main : String) : String :=
+  match fuel.toNat?, limit.toNat?, fromHex root, csvHex exts, csvHex keys, parseFiles files, parseStmts main with
+  | some fuel, some limit, some root, some exts, some keys, some files, some main =>
+    let env : Env :=
+      if shared then { root := root, exts := exts, files := files, limit := limit, reuse := shareByText files exts }
+      else { root := root, exts := exts, files := files, limit := limit }
+    let r := run env fuel main
+    let st := r.2
+    let d := dump st keys 5 "main" 0
+    "\t".intercalate [showOut r.1.1, showCsv st.ticks, showCsv st.opens, showCsv st.failed, showCsv st.reent,
+      toString st.spawns, toString st.misbinds, toString st.nofuel,
+      (if d.isEmpty then "-" else ",".intercalate d),
+      toString (runsOnce st), toString (oneObjectPerName st), toString (globalsDisjoint st),
+      (if st.reruns.isEmpty then "-" else ",".intercalate (st.reruns.map fun r => hexOrTilde r.1 ++ ":" ++ toString r.2)),
+      toString (codeInj st),
+      (if st.compiled.isEmpty then "-" else ",".intercalate (st.compiled.reverse.map fun p => hexOrTilde p.1 ++ ":" ++ toString p.2))]
+  | _, _, _, _, _, _, _ => "error\tbad-request"
 
 def handle : List String → String
   | ["valid", p] =>
@@ -98,19 +130,18 @@ def handle : List String → String
     | some r, some n, some e =>
       toHexField (fileName r n e) ++ "\t" ++ toString (underRoot r (fileName r n e))
     | _, _, _ => "error\tbad-hex"
-  | ["run", fuel, limit, root, exts, keys, files, main] =>
-    match fuel.toNat?, limit.toNat?, fromHex root, csvHex exts, csvHex keys, parseFiles files, parseStmts main with
-    | some fuel, some limit, some root, some exts, some keys, some files, some main =>
-      let env : Env := { root := root, exts := exts, files := files, limit := limit }
-      let r := run env fuel main
-      let st := r.2
-      let d := dump st keys 5 "main" 0
-      "\t".intercalate [showOut r.1.1, showCsv st.ticks, showCsv st.opens, showCsv st.failed, showCsv st.reent,
-        toString st.spawns, toString st.misbinds, toString st.nofuel,
-        (if d.isEmpty then "-" else ",".intercalate d),
-        toString (runsOnce st), toString (oneObjectPerName st), toString (globalsDisjoint st),
-        (if st.reruns.isEmpty then "-" else ",".intercalate (st.reruns.map fun r => hexOrTilde r.1 ++ ":" ++ toString r.2))]
-    | _, _, _, _, _, _, _ => "error\tbad-request"
+  | ["run", fuel, limit, root, exts, keys, files, main] => doRun false fuel limit root exts keys files main
+  | ["runshared", fuel, limit, root, exts, keys, files, main] => doRun true fuel limit root exts keys files main
+  | ["codes", root, exts, files, names] =>
+    match fromHex root, csvHex exts, parseFiles files, csvHex names with
+    | some root, some exts, some files, some names =>
+      let env : Env := { root := root, exts := exts, files := files, limit := 1024 }
+      let st := importSeq env names St.init
+      "\t".intercalate [
+        (if names.isEmpty then "-" else ",".intercalate (names.map fun n =>
+          match st.compiled.lookup n with | some c => toString c | none => "-")),
+        toString (codeInj st), showCsv st.opens]
+    | _, _, _, _ => "error\tbad-request"
   | _ => "error\tunknown-request"
 
 end Risor.C14
